@@ -142,6 +142,13 @@ def process_chunk(args):
         first = out.split(";")[0].split("|")
         ret = None
         inp = {"op": l[:300], "keymode": c["keymode"], "trace": c.get("trace", False)}
+        if c.get("expect_exn"):
+            if first[0] != c["expect_exn"] or wlen != 0 or draws:
+                res["violate"].append(("unencodable-text-refused", "not-refused-cleanly", inp, c["expect_exn"] + ", nothing drawn or written",
+                                       f"{out[:120]} wire={wlen} draws={draws}", n))
+            if wire is not None:
+                di += 1
+            continue
         if first[0].startswith("N:"):
             ret = int(first[0][2:])
         elif first[0].startswith("X:"):
@@ -180,6 +187,21 @@ def run(ctx):
             cases.append({"n": len(tb), "op": 1, "fin": 1 if api == "send" else 0, "key": b"kEy" + bytes([65 + i]), "api": "text-str",
                           "keymode": "strkey", "trace": False, "acc": None, "seed": 0, "payload": tb,
                           "opstr": f"send:1:{tb.hex() or '-'}" if api == "send" else f"sendf:0:1:{tb.hex() or '-'}", "ptype_fn": _to_str})
+    # str payloads through EVERY entry point that accepts one (send, ping, pong), given by code points; a str with a lone
+    # surrogate cannot be encoded: refused before anything is drawn or written
+    for i, t in enumerate(TEXTS + ["caf\u00e9", "\u00ff\u0100", "\u3053\u3093", "\U0001f600!", "\ud800", "a\udfffb"]):
+        cps = ".".join(str(ord(ch)) for ch in t) or "-"
+        try:
+            tb = t.encode("utf-8")
+        except UnicodeEncodeError:
+            tb = None
+        for api, op in (("sendt", 1), ("pingt", 9), ("pongt", 10)):
+            if tb is not None and op != 1 and len(tb) > 125:
+                continue
+            cases.append({"n": len(tb or b""), "op": op, "fin": 1, "key": b"Kq" + bytes([65 + i % 26, 97 + i % 26]), "api": "str-" + api,
+                          "keymode": "script" if i % 2 else "strkey", "trace": bool(i % 3 == 0), "acc": None, "seed": 0,
+                          "payload": tb or b"", "noret": op != 1, "opstr": f"{api}:{cps}",
+                          "expect_exn": None if tb is not None else "X:INTERNAL(UnicodeEncodeError)"})
     for status, reason in [(1000, b""), (1001, b"bye"), (4999, "grüß".encode()), (0, b""), (65535, b"x" * 123)]:
         for api in ("sclose", "close"):
             cases.append({"n": 2 + len(reason), "op": 8, "fin": 1, "key": b"\xaa\xbb\xcc\xdd", "api": api, "keymode": "script",
